@@ -176,32 +176,32 @@ def progLink : List C05Cache.Op :=
 open C05Cache.Op in
 /-- `st = x > 2; d.get_mask(st); st.right = 3; d.get_mask(st)`. -/
 def progSetter : List C05Cache.Op :=
-  [base (.leaf .inequality 1), base (.eval 0 0 vw .kw), setAttr 0 2, base (.eval 0 0 vw .kw)]
+  [base (.leaf .inequality 1), base (.eval 0 0 vw .kw), setAttr 0 .inequality 2, base (.eval 0 0 vw .kw)]
 
 open C05Cache.Op in
 /-- `a = OrState(r, r); d.get_mask(a); a.state1.hi = 4; d.get_mask(a)` (`RangeSubsetState` is not memoised). -/
 def progUnderComposite : List C05Cache.Op :=
-  [base (.leaf .range 1), base (.bin .or 0 0), base (.eval 1 0 vw .kw), base (.child 1 0), setAttr 2 3,
+  [base (.leaf .range 1), base (.bin .or 0 0), base (.eval 1 0 vw .kw), base (.child 1 0), setAttr 2 .range 3,
    base (.eval 1 0 vw .kw)]
 
 open C05Cache.Op in
 /-- `c = rs & rs` (both copies share the ROI object); `d.get_mask(c); roi.move_to(…); d.get_mask(c)`. -/
 def progRoi : List C05Cache.Op :=
-  [base (.leaf .roi2d 1), base (.bin .and 0 0), base (.eval 1 0 vw .kw), editParam 0 2, base (.eval 1 0 vw .kw)]
+  [base (.leaf .roi2d 1), base (.bin .and 0 0), base (.eval 1 0 vw .kw), editParam 0 .roi2d 2, base (.eval 1 0 vw .kw)]
 
 open C05Cache.Op in
 /-- Even a fresh `copy()` after the edit is stale when the selection is a `MultiOrState`: the copy shares
 the list, hence the member objects and their memo entries. -/
 def progMultiOrCopy : List C05Cache.Op :=
-  [base (.leaf .inequality 1), base (.multiOr [0]), base (.eval 1 0 vw .kw), setAttr 0 2, base (.copy 1),
+  [base (.leaf .inequality 1), base (.multiOr [0]), base (.eval 1 0 vw .kw), setAttr 0 .inequality 2, base (.copy 1),
    base (.eval 2 0 vw .kw)]
 
 open C05Cache.Op in
 /-- Inside the hypotheses: edit *before* the first evaluation, edit an object nobody evaluated, assign a
 fresh copy of a composite after an edit, data mutation of a top-level memoised class. -/
 def progFine : List C05Cache.Op :=
-  [base (.leaf .inequality 1), setAttr 0 2, base (.eval 0 0 vw .kw), base (.leaf .range 1),
-   base (.bin .or 0 1), base (.eval 2 0 vw .pos), setAttr 1 3, editParam 1 1, base (.eval 1 0 vw .kw),
+  [base (.leaf .inequality 1), setAttr 0 .inequality 2, base (.eval 0 0 vw .kw), base (.leaf .range 1),
+   base (.bin .or 0 1), base (.eval 2 0 vw .pos), setAttr 1 .range 3, editParam 1 .range 1, base (.eval 1 0 vw .kw),
    base (.copy 2), base (.eval 3 0 vw .kw), dataMut .updateComponents 0, base (.eval 3 0 vw .kw),
    base (.eval 2 0 vw .pos)]
 
